@@ -30,6 +30,11 @@ class SimInterrupt(BaseException):
     """Asynchronous interruption injected by the simulator."""
 
 
+class SimDeadlock(BaseException):
+    """A thread tried to block on a plain lock it already holds itself:
+    outside a simulation nobody else can ever release it."""
+
+
 class SimAbort(BaseException):
     """Tears down a simulated thread when a run is being aborted."""
 
@@ -41,6 +46,7 @@ class SimLock:
     def __init__(self):
         self._real = _real_allocate()
         self._owner = None        # tid of simulated owner, or 'ext'
+        self._ident = None        # thread ident of an 'ext' owner
 
     def _sim(self):
         s = _cur
@@ -54,9 +60,14 @@ class SimLock:
     def acquire(self, blocking=True, timeout=-1):
         s, tid = self._sim()
         if s is None:
+            me = _thread.get_ident()
+            if self._owner == 'ext' and self._ident == me and blocking \
+                    and (timeout is None or timeout < 0):
+                raise SimDeadlock('lock already held by this thread')
             ok = self._real.acquire(blocking, timeout)
             if ok:
                 self._owner = 'ext'
+                self._ident = me
             return ok
         s.n_lock_acq += 1
         first = True
